@@ -380,6 +380,41 @@ func quirkyNeighbour() error {
 	return nil
 }
 
+// noisyNeighbour keeps one more connection busy for as long as stop is open: its
+// BMC answers every request with a datagram cut short somewhere (inside the
+// session header, the payload, the message), so its goroutine retries flat out
+// and every layer's "truncated" path runs all the time. The other connections
+// must not notice.
+func noisyNeighbour(stop <-chan struct{}) {
+	w := hx.NewWorld(7, false)
+	cut := 0
+	w.BMC.Intercept = func(b *simbmc.BMC, rx *simbmc.Rx) {
+		for i := range rx.Replies {
+			d := rx.Replies[i].Data
+			cut++
+			if n := []int{2, 6, 10, 15, 18, 21}[cut%6]; n < len(d) {
+				rx.Replies[i].Data = append([]byte(nil), d[:n]...)
+			}
+		}
+	}
+	go func() {
+		for {
+			select {
+			case <-stop:
+				return
+			default:
+			}
+			ctx, cancel := w.Ctx(40)
+			w.T.GetSystemGUID(ctx)
+			cancel()
+			ctx, cancel = w.Ctx(40)
+			w.T.SendCommand(ctx, &ipmi.GetChannelAuthenticationCapabilitiesCmd{})
+			cancel()
+			runtime.Gosched()
+		}
+	}()
+}
+
 func TestConcurrent(t *testing.T) {
 	ns := []int{8}
 	procs := []int{4}
@@ -435,6 +470,12 @@ func TestConcurrent(t *testing.T) {
 						}
 						time.Sleep(20 * time.Millisecond) // let it reach its first receive
 						ev.Label("slow-neighbour-connection")
+					}
+					stopNoise := make(chan struct{})
+					defer close(stopNoise)
+					if rep%3 == 0 {
+						noisyNeighbour(stopNoise)
+						ev.Label("noisy-neighbour-connection")
 					}
 					for i := range seeds {
 						wg.Add(1)
@@ -509,5 +550,5 @@ func TestConcurrent(t *testing.T) {
 
 func TestCoverage(t *testing.T) {
 	ev.RequireLabels(t, 2, "overlapped:N=8:GOMAXPROCS=4")
-	ev.RequireLabels(t, 1, "concurrent-complete", "order:together-first", "slow-neighbour-connection", "quirky-neighbour-connection", "udp-workload-with-back-off-sleep")
+	ev.RequireLabels(t, 1, "concurrent-complete", "order:together-first", "slow-neighbour-connection", "quirky-neighbour-connection", "noisy-neighbour-connection", "udp-workload-with-back-off-sleep")
 }
